@@ -113,6 +113,16 @@ impl Ctx {
         self.world.keep(x);
     }
 
+    /// "io=<I/O thread gone> transport=<transport dropped>" at this moment (C05's last clause is
+    /// about the moment close or drop returns, not about the end of the session)
+    pub fn released(&self) -> String {
+        if self.free.is_some() {
+            return "io=true transport=true".into();
+        }
+        let (a, b) = self.world.released();
+        format!("io={} transport={}", a, b)
+    }
+
     pub fn stall_transport(&self) {
         self.world.stall_transport();
     }
